@@ -131,6 +131,7 @@ type env struct {
 	val     func() any // a value of the fresh struct type
 	rec     *alt.Recomposer
 	recCold *alt.Recomposer // made with its types, never used before the goroutines start
+	recAnon *alt.Recomposer // made with its type and used once before the goroutines start
 	recs    []recTarget
 }
 
@@ -188,6 +189,15 @@ type leaf struct {
 	Tag string
 }
 
+// twoAnon has fields of two different struct types that have no name.
+type twoAnon struct {
+	A struct{ X int }
+	B struct{ Y string }
+	C []struct{ Z bool }
+}
+
+var twoAnonData = map[string]any{"a": map[string]any{"x": int64(3)}, "b": map[string]any{"y": "why"}, "c": []any{map[string]any{"z": true}}}
+
 var shelfData = alt.Decompose(&shelf{Name: "s", Items: map[string]*leaf{"a": {N: 1, Tag: "x"}, "b": {N: 2}}, Byval: map[string]leaf{"c": {N: 3}}}, &ojg.Options{})
 
 var opKinds = []string{
@@ -195,7 +205,7 @@ var opKinds = []string{
 	"oj.load", "oj.mustload", "oj.mustparse", "oj.parse.callback", "sen.parsereader", "sen.mustparsereader", "sen.mustparse", "sen.parse.callback",
 	"oj.json", "oj.marshal", "oj.write", "sen.string", "sen.bytes", "pretty.json", "pretty.sen",
 	"struct.oj.json", "struct.oj.marshal", "struct.sen.string", "struct.pretty", "struct.decompose", "named.oj.json", "named.decompose",
-	"alt.generify", "alt.alter", "alt.dup", "alt.recompose", "alt.recompose.cold",
+	"alt.generify", "alt.alter", "alt.dup", "alt.recompose", "alt.recompose.cold", "alt.recompose.anon",
 	"jp.get", "jp.first", "jp.has", "jp.set", "jp.del", "jp.modify", "jp.parse", "jp.get.pattern",
 }
 
@@ -218,7 +228,7 @@ func shared(k string) string {
 		return "struct-plan"
 	case strings.HasPrefix(k, "jp.") && k != "jp.parse":
 		return "expression"
-	case k == "alt.recompose" || k == "alt.recompose.cold" || k == "oj.unmarshal":
+	case k == "alt.recompose" || k == "alt.recompose.cold" || k == "alt.recompose.anon" || k == "oj.unmarshal":
 		return "recomposer"
 	case k == "oj.json" || k == "oj.marshal" || k == "oj.write" || k == "sen.string" || k == "sen.bytes" || k == "pretty.json" || k == "pretty.sen":
 		return "pooled-writer"
@@ -478,6 +488,11 @@ func (e *env) call(op Op) (res string, buf []byte) {
 		// needs for them - also for the struct reached through a map only - is there already
 		out, err := e.recCold.Recompose(canon.Copy(shelfData), &shelf{})
 		return fmt.Sprintf("%s %v", canon.String(out, canon.Value), err), nil
+	case "alt.recompose.anon":
+		// a registered type with fields of two struct types without a name (all such types go by
+		// the same empty name): registered beforehand, and used before, is all that is asked
+		out, err := e.recAnon.Recompose(canon.Copy(twoAnonData), &twoAnon{})
+		return fmt.Sprintf("%s %v", canon.String(out, canon.Value), err), nil
 	case "jp.get.pattern":
 		// filters that call match / search / length / count through shared expressions; the
 		// patterns come from the data and every call brings patterns nobody has used before
@@ -568,6 +583,12 @@ func newEnv(cs Case) *env {
 	}
 	e.rec = r
 	if e.recCold, err = alt.NewRecomposer("", map[any]alt.RecomposeFunc{&shelf{}: nil}); err != nil {
+		panic(err)
+	}
+	if e.recAnon, err = alt.NewRecomposer("", map[any]alt.RecomposeFunc{&twoAnon{}: nil}); err != nil {
+		panic(err)
+	}
+	if _, err = e.recAnon.Recompose(canon.Copy(twoAnonData), &twoAnon{}); err != nil {
 		panic(err)
 	}
 	for i, mk := range mks {
